@@ -29,14 +29,14 @@ def srcBranches : List BrD → Src.Branches
 (`E`: the end label of the if-block, where the block's end jump goes) -/
 structure BrOK (cx : Cx) (fuel : Nat) (E : Nat) (s : St) (env : Src.Env) (d : BrD) : Prop where
   hok : HdrsOK d.hs
-  grow : ∀ k b, Grow b (Src.trStmts fuel [] env (toSrcStmts d.body) k b).1
+  grow : ∀ k b, Grow cx.Z b (Src.trStmts fuel [] env (toSrcStmts d.body) k b).1
   pos : d.neg = false → ∃ bps tgt L, HdrsTo tgt bps d.hdrs ∧ (∀ b ∈ bps, tgt b = L) ∧ NamesOf d.hs bps ∧
-    ∀ r ib, Placed cx.rs r ib d.PB → ∀ k b, AgreeOn cx.N b (Src.trStmts fuel [] env (toSrcStmts d.body) k b).1 →
+    ∀ r ib, Placed cx.rs r ib d.PB → ∀ k b, AgreeOn cx.N cx.Z b (Src.trStmts fuel [] env (toSrcStmts d.body) k b).1 →
       ∀ m j, ExitsOK cx m j s env → R2 cx m j (target cx.rs E) k →
         R2 cx m j (target cx.rs L) (Src.trStmts fuel [] env (toSrcStmts d.body) k b).2
   negc : d.neg = true → ∃ bps tgt eL PB', HdrsTo tgt bps d.hdrs ∧ (∀ b ∈ bps, tgt b = eL) ∧ NamesOf d.hs bps ∧
     d.PB = PB' ++ [.label eL false] ∧
-    ∀ r ib, Placed cx.rs r ib d.PB → ∀ k b, AgreeOn cx.N b (Src.trStmts fuel [] env (toSrcStmts d.body) k b).1 →
+    ∀ r ib, Placed cx.rs r ib d.PB → ∀ k b, AgreeOn cx.N cx.Z b (Src.trStmts fuel [] env (toSrcStmts d.body) k b).1 →
       ∀ m j, ExitsOK cx m j s env → R2 cx m j (target cx.rs E) k →
         R2 cx m j ⟨r, ib⟩ (Src.trStmts fuel [] env (toSrcStmts d.body) k b).2
 
@@ -54,11 +54,11 @@ theorem backOf_placed {rs : List (List LItem)} {r : Nat} : ∀ (brs : List BrD) 
       exact ⟨q, hp.left⟩
     · exact ih _ hp.right d hd hn
 
-theorem chain_corr (cx : Cx) (fuel : Nat) (E : Nat) (s : St) (env : Src.Env) (he : PlainEnv env) : ∀ (brs : List BrD),
+theorem chain_corr (cx : Cx) (fuel : Nat) (E : Nat) (s : St) (env : Src.Env) (he : EnvOK cx env) : ∀ (brs : List BrD),
     (∀ d ∈ brs, BrOK cx fuel E s env d) → ∀ r p, Placed cx.rs r p (frontOf brs) →
     (∀ d ∈ brs, d.neg = false → ∃ ib, Placed cx.rs r ib d.PB) → ∀ (k elseEntry : Nat) (b : Src.B),
-      Grow b (Src.trBranches fuel [] env (srcBranches brs) k elseEntry b).1 ∧
-      (AgreeOn cx.N b (Src.trBranches fuel [] env (srcBranches brs) k elseEntry b).1 → ∀ m j, ExitsOK cx m j s env →
+      Grow cx.Z b (Src.trBranches fuel [] env (srcBranches brs) k elseEntry b).1 ∧
+      (AgreeOn cx.N cx.Z b (Src.trBranches fuel [] env (srcBranches brs) k elseEntry b).1 → ∀ m j, ExitsOK cx m j s env →
         R2 cx m j (target cx.rs E) k → R2 cx m j ⟨r, p + (frontOf brs).length⟩ elseEntry →
         R2 cx m j ⟨r, p⟩ (Src.trBranches fuel [] env (srcBranches brs) k elseEntry b).2) := by
   intro brs
@@ -93,8 +93,8 @@ theorem chain_corr (cx : Cx) (fuel : Nat) (E : Nat) (s : St) (env : Src.Env) (he
       obtain ⟨gT, cT⟩ := testChain_corr cx L bps d.hdrs d.hs tgt hh htg hnm hd.hok r p hpH bodyEntry restEntry b2
       simp only [Bool.false_eq_true, if_false]
       refine ⟨(gR.trans gB).trans gT, fun hag m j hex hend hels => ?_⟩
-      have agR : AgreeOn cx.N b b1 := hag.sub_grow (Grow.refl b) (gB.trans gT)
-      have agB : AgreeOn cx.N b1 b2 := hag.sub_grow gR gT
+      have agR : AgreeOn cx.N cx.Z b b1 := hag.sub_grow (Grow.refl b) (gB.trans gT)
+      have agB : AgreeOn cx.N cx.Z b1 b2 := hag.sub_grow gR gT
       have agT := hag.sub_grow (gR.trans gB) (Grow.refl _)
       have hbody : R2 cx m j (target cx.rs L) bodyEntry := by
         have := hsem r ib hpb k b1 (by rw [hR2]; exact agB) m j hex hend
@@ -111,8 +111,8 @@ theorem chain_corr (cx : Cx) (fuel : Nat) (E : Nat) (s : St) (env : Src.Env) (he
       obtain ⟨gT, cT⟩ := testChain_corr cx eL bps d.hdrs d.hs tgt hh htg hnm hd.hok r p hpH restEntry bodyEntry b2
       simp only [if_true]
       refine ⟨(gR.trans gB).trans gT, fun hag m j hex hend hels => ?_⟩
-      have agR : AgreeOn cx.N b b1 := hag.sub_grow (Grow.refl b) (gB.trans gT)
-      have agB : AgreeOn cx.N b1 b2 := hag.sub_grow gR gT
+      have agR : AgreeOn cx.N cx.Z b b1 := hag.sub_grow (Grow.refl b) (gB.trans gT)
+      have agB : AgreeOn cx.N cx.Z b1 b2 := hag.sub_grow gR gT
       have agT := hag.sub_grow (gR.trans gB) (Grow.refl _)
       have hbody : R2 cx m j ⟨r, p + d.hdrs.length⟩ bodyEntry := by
         have := hsem r _ hpB k b1 (by rw [hR2]; exact agB) m j hex hend
